@@ -82,6 +82,47 @@ type env struct {
 	srvAddr  *net.UDPAddr
 	seq      uint32
 	log      *slog.Logger
+	aged     time.Duration       // how much older the provider has been made so far
+	keys     map[uint16]keyInfo  // every server key seen as the current one: value and end of validity
+}
+
+// keyInfo: a key as handed out by provider.Current(); its validity ends at
+// notAfter on the clock "real time + ageing applied so far".
+type keyInfo struct {
+	value    []byte
+	notAfter time.Time
+}
+
+// noteCurrent asks the provider for its current key, as an NTS-KE exchange of
+// another client would, and remembers it.
+func (e *env) noteCurrent() int64 {
+	k := e.provider.Current()
+	id := uint16(k.ID)
+	if _, ok := e.keys[id]; !ok {
+		e.keys[id] = keyInfo{value: append([]byte(nil), k.Value...), notAfter: k.Validity.NotAfter.Add(e.aged)}
+	}
+	return int64(id)
+}
+
+// shouldOpen: does the cookie open under a key that was handed out as the current
+// one and whose three days of validity are not over (with a minute of margin:
+// then the provider itself is asked)?  Independent of what the provider still holds.
+func (e *env) shouldOpen(cookie []byte) bool {
+	var ec ntske.EncryptedServerCookie
+	if err := ec.Decode(cookie); err != nil {
+		return false
+	}
+	ki, ok := e.keys[ec.ID]
+	now := time.Now().Add(e.aged)
+	if !ok || (now.After(ki.notAfter.Add(-time.Minute)) && now.Before(ki.notAfter.Add(time.Minute))) {
+		_, ok := e.cookieFacts(cookie)
+		return ok
+	}
+	if now.After(ki.notAfter) {
+		return false
+	}
+	_, err := ec.Decrypt(ki.value)
+	return err == nil
 }
 
 func ownAddr(second byte) net.IP {
@@ -95,7 +136,7 @@ func fatal(f string, a ...any) {
 }
 
 func newEnv() *env {
-	e := &env{ip: ownAddr(11), log: slog.New(slog.DiscardHandler)}
+	e := &env{ip: ownAddr(11), log: slog.New(slog.DiscardHandler), keys: map[uint16]keyInfo{}}
 	timebase.RegisterClock(sysClock{})
 	e.provider = ntske.NewProvider()
 	ctx := context.Background()
@@ -284,6 +325,7 @@ const (
 	actTimeout   = 5 // request lost, the client runs into its deadline
 	actKeFail    = 6 // a key exchange, if one is needed, fails; otherwise as actDeliver
 	actDupReq    = 7 // the request reaches the server twice; the first reply passes
+	actForge     = 8 // a forged datagram with cleartext cookie fields arrives before the genuine reply
 )
 
 type step struct {
@@ -298,6 +340,8 @@ type stepObs struct {
 	reqCT     []byte // ciphertext recomputed for the request
 	reqNonce  []byte
 	openable  bool
+	curKey    int64    // the provider's current key id right after the reply (-1: not asked)
+	forged    [][]byte // cookies of a forged datagram delivered to the client
 	forwarded int
 	replies   [][]byte
 	repNonce  []byte
@@ -335,6 +379,7 @@ func (e *env) runStep(x *cl, st step, old *[][]byte) stepObs {
 	var o stepObs
 	if st.ageNs != 0 {
 		e.provider.VerifAge(time.Duration(st.ageNs))
+		e.aged += time.Duration(st.ageNs)
 	}
 	ke0 := x.ke.Load()
 	x.keFail.Store(st.action == actKeFail)
@@ -378,7 +423,7 @@ func (e *env) runStep(x *cl, st step, old *[][]byte) stepObs {
 		var p nts.Packet
 		if nts.DecodePacket(&p, o.req) == nil {
 			if c, err := p.FirstCookie(); err == nil {
-				_, o.openable = e.cookieFacts(c)
+				o.openable = e.shouldOpen(c)
 			}
 		}
 		act := st.action
@@ -389,7 +434,7 @@ func (e *env) runStep(x *cl, st step, old *[][]byte) stepObs {
 			act = actDropReply
 		}
 		switch act {
-		case actDeliver, actDropReply, actTamper, actReplay:
+		case actDeliver, actDropReply, actTamper, actReplay, actForge:
 			o.forwarded = 1
 			o.replies = e.toServer(o.req)
 		case actDupReq:
@@ -397,7 +442,9 @@ func (e *env) runStep(x *cl, st step, old *[][]byte) stepObs {
 			o.replies = e.toServer(o.req)
 			o.replies = append(o.replies, e.toServer(o.req)...)
 		}
+		o.curKey = -1
 		if len(o.replies) > 0 {
+			o.curKey = e.noteCurrent()
 			r := o.replies[0]
 			if pos, nonce, ct, ok := authParts(r); ok {
 				o.repNonce = nonce
@@ -425,6 +472,27 @@ func (e *env) runStep(x *cl, st step, old *[][]byte) stepObs {
 		case actDeliver, actDupReq:
 			if len(o.replies) > 0 {
 				o.delivered = o.replies[0]
+				o.intact = true
+			}
+		case actForge:
+			if len(o.replies) > 0 {
+				// header and unique identifier of the genuine reply, two cookie fields in the clear,
+				// an authenticator that cannot verify; the genuine reply follows
+				r := o.replies[0]
+				f := append([]byte(nil), r[:ntp.PacketLen+36]...)
+				for i := 0; i < 2; i++ {
+					c := make([]byte, 124)
+					rand.Read(c)
+					o.forged = append(o.forged, c)
+					f = append(f, 0x02, 0x04, 0, 128)
+					f = append(f, c...)
+				}
+				f = append(f, 0x04, 0x04, 0, 40, 0, 16, 0, 16)
+				g := make([]byte, 32)
+				rand.Read(g)
+				f = append(f, g...)
+				e.down.WriteToUDP(f, caddr)
+				o.delivered = r
 				o.intact = true
 			}
 		case actTamper:
@@ -494,7 +562,7 @@ func (o *stepObs) String() string {
 		lib.I(int64(o.forwarded)), lib.I(int64(len(o.replies))), rep, lib.B(o.repNonce), lib.B(o.repCT),
 		lib.Bool(o.repAuthOK), lib.B(o.repPlain), lib.L(o.repCookies...),
 		lib.Bool(o.intact), lib.Bool(o.clientErr), lib.I(o.keDelta),
-		bl(o.poolAfter), lib.B(o.c2s), lib.B(o.s2c))
+		bl(o.poolAfter), lib.B(o.c2s), lib.B(o.s2c), lib.I(o.curKey), bl(o.forged))
 }
 
 func parseScript(args string) []step {
@@ -522,6 +590,8 @@ func (e *env) runHist(script []step) (tagstr, args, outstr string) {
 	tags := map[string]bool{}
 	lvl := 0
 	minLvl := 8
+	var totalAge int64
+	rotations := 0
 	for i, st := range script {
 		o := e.runStep(x, st, &old)
 		outs[i] = o.String()
@@ -545,6 +615,13 @@ func (e *env) runHist(script []step) (tagstr, args, outstr string) {
 		}
 		if st.ageNs != 0 {
 			tags["aged"] = true
+			totalAge += st.ageNs
+			if o.sent && o.intact {
+				rotations++
+			}
+		}
+		if len(o.forged) > 0 {
+			tags["forged"] = true
 		}
 		if len(o.repCookies) >= 7 {
 			tags["reply-capped"] = true
@@ -554,6 +631,9 @@ func (e *env) runHist(script []step) (tagstr, args, outstr string) {
 			minLvl = lvl
 		}
 		tags[fmt.Sprintf("act%d", st.action)] = true
+	}
+	if totalAge > 72*3600*1000000000 && rotations >= 3 {
+		tags["served-across-3-rotations"] = true
 	}
 	if minLvl <= 1 {
 		tags["low-pool"] = true
